@@ -60,8 +60,9 @@ def main():
     ap.add_argument('--out', default='/verif/.cache/mutation-sweep.json')
     ap.add_argument('--jobs', type=int, default=12)
     ap.add_argument('--no-tests', action='store_true')
+    ap.add_argument('--extended', action='store_true', help='the second operator family (statement-level / structural edits)')
     a = ap.parse_args()
-    muts = sweep.enumerate_mutants(REPO, sweep.source_files(REPO, a.files))
+    muts = sweep.enumerate_mutants(REPO, sweep.source_files(REPO, a.files), sweep.OPS2 if a.extended else None)
     if a.limit:
         muts = muts[:a.limit]
     print(len(muts), 'mutants', flush=True)
